@@ -208,7 +208,8 @@ fn run_case(sink: &mut Sink, defs: &[Def], text: &str, qs: &[u32], verbose: bool
     if it.is_err() {
         sink.tag("iter_panics(default table)");
     }
-    let term = format!("check_case_iter {} {} {}", rs, qsv, its);
+    // and the same file through the model of the text reader (status 0 = loaded)
+    let term = format!("check_case_iter {} {} {} && check_text {} 0%N {}", rs, qsv, its, cbytes(text.as_bytes()), qsv);
     // non-trivial: at least two definition lines overlap or touch
     let mut nontrivial = false;
     for (i, a) in defs.iter().enumerate() {
@@ -240,6 +241,13 @@ fn malformed(sink: &mut Sink, rng: &mut Rng, n: usize) {
         "0x0030 NOSUCHCLASS\n",
         "0x0030\n",
         "0x00ZZ KANJI\n",
+        "0xFFFFFFFF KANJI\n",
+        "0x30..0xFFFFFFFF KANJI\n",
+        "0x100000000 KANJI\n",
+        "0x30.. KANJI\n",
+        "0x KANJI\n",
+        "0x-30 KANJI\n",
+        "0x30...0x39 KANJI\n",
     ];
     let mut rejected = 0u64;
     for _ in 0..n {
@@ -253,6 +261,9 @@ fn malformed(sink: &mut Sink, rng: &mut Rng, n: usize) {
             text = format!("{}{}", b, text);
         }
         let r = catch(|| CharacterCategory::from_reader(BufReader::new(text.as_bytes())).is_ok());
+        // the text-reader model must predict the same outcome (0 loaded / 1 Err / 2 panic); unmodelled syntax passes
+        let status = match &r { Ok(true) => 0u32, Ok(false) => 1, Err(_) => 2 };
+        sink.case(format!("check_text {} {} []", cbytes(text.as_bytes()), cn(status)), json!({"kind": "c17-malformed", "text": text}), false);
         match r {
             Ok(false) => rejected += 1,
             Ok(true) => {
@@ -269,7 +280,7 @@ fn malformed(sink: &mut Sink, rng: &mut Rng, n: usize) {
 }
 
 pub fn run(args: &Args) {
-    let mut sink = Sink::new("C17", &args.out, &["Model.CharCat"], args.seed, &args.tier);
+    let mut sink = Sink::new("C17", &args.out, &["Model.CharCat", "Model.CharDefText"], args.seed, &args.tier);
     sink.rule("random char.def files (0..13 lines over a small pool of boundary points incl. 0, surrogate-gap and plane-16 edges; duplicates, single points, empty class lists, comments) x query points {every range end and its +-2 neighbours, 0, U+D7FF, U+E000, U+10FFFF, random}; non-trivial = at least two lines overlap or touch; distinct by generated Coq term");
     if let Some(p) = &args.replay {
         let v: Value = serde_json::from_str(&std::fs::read_to_string(p).unwrap()).unwrap();
@@ -304,6 +315,20 @@ pub fn run(args: &Args) {
             run_case(&mut sink, &defs, &text, &qs, false);
             sink.tag("corpus_shipped_file");
         }
+    }
+    // odd but valid spellings: a '+' sign, a repeated "0x" prefix, CRLF, tabs, trailing spaces, a third ".." piece
+    {
+        let text = "0x+30 KANJI\r\n0x0x41\tALPHA  \n  0x50..0x52..0x60 GREEK # c\n0x30..0x+39 NUMERIC\n";
+        let k = |n: &str| NAMES.iter().position(|x| x.0 == n).unwrap();
+        let defs = vec![
+            Def { lo: 0x30, hi: 0x30, cats: vec![k("KANJI")], single: true },
+            Def { lo: 0x41, hi: 0x41, cats: vec![k("ALPHA")], single: true },
+            Def { lo: 0x50, hi: 0x52, cats: vec![k("GREEK")], single: false },
+            Def { lo: 0x30, hi: 0x39, cats: vec![k("NUMERIC")], single: false },
+        ];
+        let qs = queries(&defs, &mut rng, true);
+        run_case(&mut sink, &defs, text, &qs, false);
+        sink.tag("corpus_odd_spellings");
     }
     let n = args.n(1200, 20000);
     for _ in 0..n {
